@@ -343,6 +343,8 @@ class Gen:
         yield "c.new n=%d r=%d w=%d rq=%d parts=%d tsize=%d rr=%d ttl_ms=%d%s" % (
             n, R, W, RQ, parts, tsize, r.choice([0, 0, 1]), ttl, custom)
         keys = getattr(self, "keyset", None) or [b"k%d" % i for i in range(r.choice([2, 4, 8]))]
+        if not getattr(self, "keyset", None) and r.random() < 0.25:
+            keys = keys + [b"K" * 255]          # the longest key the store takes (the length is kept in one byte)
         pdestroy = getattr(self, "pdestroy", 0.005)
         ver = 0
         for _ in range(nops):
